@@ -658,3 +658,84 @@ func (ex *Exec) deepDiff(a, b Value, path string, seen map[[2]*Obj]bool) string 
 	}
 	return ""
 }
+
+// posShifted builds a Bool term: b equals a except that every token.Pos-typed value p of a appears in b
+// as p+delta (NoPos stays NoPos). The walk is typed (go/types) so that positions are recognised.
+func (ex *Exec) posShifted(a, b Value, t types.Type, delta *Term, seen map[[2]*Obj]bool) *Term {
+	tf := ex.tf
+	if named, ok := t.(*types.Named); ok && named.Obj().Pkg() != nil && named.Obj().Pkg().Path() == "go/token" && named.Obj().Name() == "Pos" {
+		x, y := a.(*Term), b.(*Term)
+		zero := tf.Eq(x, tf.Const(64, 0))
+		return tf.Ite(zero, tf.Eq(y, tf.Const(64, 0)), tf.Eq(y, tf.BV("bvadd", x, delta)))
+	}
+	switch u := t.Underlying().(type) {
+	case *types.Basic:
+		return ex.deepEqual(a, b, seen)
+	case *types.Pointer:
+		x, y := a.(PtrV), b.(PtrV)
+		if x.obj == nil || y.obj == nil {
+			return tf.Bool(x.obj == nil && y.obj == nil)
+		}
+		k := [2]*Obj{x.obj, y.obj}
+		if seen[k] {
+			return tf.Bool(true)
+		}
+		seen[k] = true
+		return ex.posShifted(ex.loadRaw(x), ex.loadRaw(y), u.Elem(), delta, seen)
+	case *types.Struct:
+		x, y := a.(*StructV), b.(*StructV)
+		r := tf.Bool(true)
+		for i := 0; i < u.NumFields(); i++ {
+			r = tf.And(r, ex.posShifted(x.fields[i], y.fields[i], u.Field(i).Type(), delta, seen))
+			if r.IsFalse() {
+				return r
+			}
+		}
+		return r
+	case *types.Slice:
+		x, y := a.(SliceV), b.(SliceV)
+		if (x.arr == nil) != (y.arr == nil) || x.len != y.len {
+			return tf.Bool(false)
+		}
+		r := tf.Bool(true)
+		for i := 0; i < x.len; i++ {
+			r = tf.And(r, ex.posShifted(x.arr.v.(*ArrayV).elems[x.off+i], y.arr.v.(*ArrayV).elems[y.off+i], u.Elem(), delta, seen))
+		}
+		return r
+	case *types.Interface:
+		x, y := a.(IfaceV), b.(IfaceV)
+		if x.t == nil || y.t == nil {
+			return tf.Bool(x.t == nil && y.t == nil)
+		}
+		if !types.Identical(x.t, y.t) {
+			return tf.Bool(false)
+		}
+		return ex.posShifted(x.v, y.v, x.t, delta, seen)
+	case *types.Map, *types.Signature, *types.Chan:
+		return tf.Bool(true) // scopes / objects are not position-bearing in the restored trees
+	case *types.Array:
+		x, y := a.(*ArrayV), b.(*ArrayV)
+		r := tf.Bool(true)
+		for i := range x.elems {
+			r = tf.And(r, ex.posShifted(x.elems[i], y.elems[i], u.Elem(), delta, seen))
+		}
+		return r
+	}
+	ex.unsupported("posShifted on " + t.String())
+	return nil
+}
+
+func init() {
+	extraAPI = append(extraAPI, func(ex *Exec) {
+		ex.intr["vf:vfPosShifted"] = func(ex *Exec, fr *Frame, a []Value) Value {
+			x, y := a[0].(IfaceV), a[1].(IfaceV)
+			if x.t == nil || y.t == nil {
+				return ex.tf.Bool(x.t == nil && y.t == nil)
+			}
+			if !types.Identical(x.t, y.t) {
+				return ex.tf.Bool(false)
+			}
+			return ex.posShifted(x.v, y.v, x.t, ex.toInt(a[2]), map[[2]*Obj]bool{})
+		}
+	})
+}
